@@ -169,15 +169,6 @@ def cresJson {α : Type} (f : α → Json) : CRes α → Json
 
 /-! ### escape functions and helper configuration -/
 
-def escapeHtmlTable : List (Char × String) :=
-  [('<', "&lt;"), ('>', "&gt;"), ('"', "&quot;"), ('&', "&amp;"), ('\'', "&#x27;"), ('`', "&#x60;"), ('=', "&#x3D;")]
-
-/-- stand-in; replaced by the regenerated table once Generated/EscapeTable exists -/
-def escapeHtmlWith (tbl : List (Char × Str)) (s : Str) : Str :=
-  s.flatMap (fun c => match tbl.find? (·.1 == c) with
-    | some (_, r) => r
-    | none => [c])
-
 def markEscape (s : Str) : Str := str "⟦" ++ s ++ str "⟧"
 
 def tyTokOf (s : Str) : TyTok :=
@@ -211,15 +202,15 @@ def decoKindOf (j : Json) : Option DecoKind :=
   | _ => none
 
 structure Env where
-  builtins : List String
-  escTable : List (Char × Str)
+  dummy : Unit := ()
 
 def mkRegistry (env : Env) (cfg : Json) : Registry :=
   let esc : Str → Str := match (fldStr cfg "escape").map String.ofList with
     | some "none" => id
     | some "mark" => markEscape
-    | _ => escapeHtmlWith env.escTable
-  let r := Registry.new env.builtins esc
+    | _ => Registry.new.escape
+  let _ := env
+  let r := { Registry.new with escape := esc }
   let r := (fldArr cfg "helpers").foldl (fun r h =>
     match fldStr h "name", helperKindOf h with
     | some n, some k => { r with helpers := assocInsert r.helpers n k }
@@ -247,6 +238,11 @@ def regResult (s : Session) (i : Nat) (x : CRes Registry) : Session × Json :=
   | .panic p => (s, jObj [("r", jS "panic"), ("site", jS p)])
   | .fuel => (s, jObj [("r", jS "fuel")])
 
+/-- entry points that return a `String` hand no partial output to the caller on error -/
+def noWritten : Final → Final
+  | .err e _ => .err e []
+  | f => f
+
 def doRender (r : Registry) (fs : FS) (op : Json) : Json :=
   let api := ((fldStr op "api").map String.ofList).getD "render"
   let data := decodeData ((fld op "data").getD .null)
@@ -254,12 +250,12 @@ def doRender (r : Registry) (fs : FS) (op : Json) : Json :=
   let src := (fldStr op "src").getD []
   let failAt := fldNat op "fail_at"
   let fin : Final := match api with
-    | "render" => r.render fs name data
-    | "render_with_context" => r.renderWithContext fs name data
+    | "render" => noWritten (r.render fs name data)
+    | "render_with_context" => noWritten (r.renderWithContext fs name data)
     | "render_to_write" => r.renderToWrite fs name data failAt
     | "render_with_context_to_write" => r.renderWithContextToWrite fs name data failAt
-    | "render_template" => r.renderTemplate fs src data
-    | "render_template_with_context" => r.renderTemplateWithContext fs src data
+    | "render_template" => noWritten (r.renderTemplate fs src data)
+    | "render_template_with_context" => noWritten (r.renderTemplateWithContext fs src data)
     | "render_template_to_write" => r.renderTemplateToWrite fs src data failAt
     | "render_template_with_context_to_write" => r.renderTemplateWithContextToWrite fs src data failAt
     | _ => .panic "driver.unknown_api"
